@@ -2,7 +2,7 @@ CONSTANT P = 13
 CONSTANT NS = 2
 CONSTANT InitOn = "last"
 CONSTANT Disabled = "init_re"
-CONSTANT MaxLen = 2
+CONSTANT MaxLen = 1
 CONSTANT OutVals = {0, 1}
 CONSTANT Vals = {0, 1, 2}
 CONSTANT LuRows = {1}
